@@ -101,12 +101,21 @@ Section Step.
     destruct (step_log s e0 I0) as [E|[c [E Hcause]]]; rewrite E.
     { rewrite skipn_all. reflexivity. }
     rewrite skipn_app_exact. cbn [map forallb]. rewrite andb_true_r.
-    destruct Hcause as [[_ [_ Hi]]|[g [x [v [er [He [Hid _]]]]]]].
-    - destruct Hd; cbn [invalidating] in Hi; try contradiction.
+    destruct Hcause as [[Hvr [_ Hi]]|[g [x [v [er [He [Hid _]]]]]]].
+    - (* the release function of the stored value: the stored generation is the one of the current nonce *)
+      assert (Gen : forall i y, nth_error (gs s) i = Some y -> gnonce y = nonce s -> idn c = nn i).
+      { intros i y Hy Hn. destruct I0 as [[HN [_ [_ [_ [[V1 [V2 [V3 _]]] _]]]]] _].
+        destruct (resolved s) eqn:Er; [|destruct (V2 eq_refl) as [X _]; congruence].
+        destruct (V1 eq_refl) as [_ [A2 [_ A4]]]. pose proof (V3 _ Hvr) as Eg. destruct (getg_nth_error s i y Hy) as [Egy Hl].
+        unfold idn. f_equal. rewrite Eg. apply (InvN_inj s _ _ HN A2 Hl). rewrite A4, Egy. now symmetry. }
+      destruct Hd; cbn [invalidating] in Hi; try contradiction.
       + (* SetContext with a different context *) unfold set_context. destruct (Nat.eqb_spec (kctx s) (n2n c0)) as [E1|E1]; [contradiction|reflexivity].
       + (* removeRef *) unfold u_dropped_last. rewrite Enin, NS. destruct Hi as [-> _]. reflexivity.
-      + reflexivity.
-      + reflexivity.
+      + (* released() of generation g *) destruct Hi as [y [Hy Hn]]. rewrite (Gen _ y Hy Hn), nn_n2n, N.eqb_refl. reflexivity.
+      + (* the asynchronous released() of generation g *) destruct Hi as [y [Hy [_ Hn]]].
+        rewrite (nth_error_nth_d _ _ async0 _ Hy) in H1.
+        assert (Hx : nth_error (gs s) (n2n g) = Some (getg s (n2n g))) by (unfold getg; now apply nth_error_nth').
+        rewrite (Gen _ _ Hx ltac:(congruence)), nn_n2n, N.eqb_refl. reflexivity.
       + unfold u_dropped_last. rewrite Enin, NS. destruct Hi as [-> _]. reflexivity.
     - destruct Hd; try discriminate He. injection He as He. unfold idn. rewrite Hid, <- He, nn_n2n, N.eqb_refl. reflexivity.
   Qed.
